@@ -101,7 +101,7 @@ class Ctx:
             return False
         self.nviol += 1
         if self._nreplay < 20:
-            d = os.path.join(VERIF, "replay")
+            d = os.environ.get("VP_REPLAY_DIR") or os.path.join(VERIF, "replay")
             os.makedirs(d, exist_ok=True)
             path = os.path.join(d, "%s-%d.json" % (self.pid, self._nreplay))
             self._nreplay += 1
@@ -128,7 +128,7 @@ class Ctx:
             cov["known_findings_seen"] = dict(self.known)
         ev = dict(property_id=self.pid, tier=self.tier, seed=self.seed, level=self.level, coverage=_jsonable(cov),
                   assumptions=self.assumptions, wall_s=round(time.time() - self.t0, 2), violations=self.nviol)
-        d = os.path.join(VERIF, "evidence")
+        d = os.environ.get("VP_EVIDENCE_DIR") or os.path.join(VERIF, "evidence")
         os.makedirs(d, exist_ok=True)
         tmp = os.path.join(d, ".%s.json.tmp" % self.pid)
         with open(tmp, "w") as f:
